@@ -277,12 +277,18 @@ def run_witness(u, repo, bdir):
     sc = scratch_copy(repo)
     try:
         crate_dir = os.path.join(sc, "repo", w.get("crate_dir", "."))
-        tdir = os.path.join(crate_dir, "tests")
-        os.makedirs(tdir, exist_ok=True)
-        name = "vx_witness_" + w["test"]
-        shutil.copy(os.path.join(ROOT, "replay", w["test"] + ".rs"), os.path.join(tdir, name + ".rs"))
         env = dict(os.environ, CARGO_NET_OFFLINE="true", CARGO_TARGET_DIR=os.path.join(BUILD, "target-replay"))
-        cmd = ["cargo", "test", "--offline", "--test", name] + w.get("cargo_args", []) + ["--", "--nocapture", "--test-threads", "1"]
+        if w.get("append_to"):
+            # the witness needs private items: appended as a #[cfg(test)] module to the source file
+            with open(os.path.join(sc, "repo", w["append_to"]), "a") as f:
+                f.write(open(os.path.join(ROOT, "replay", w["test"] + ".rs")).read())
+            cmd = ["cargo", "test", "--offline", "-p", w["package"], "--lib"] + w.get("cargo_args", []) + ["vx_witness_" + w["test"], "--", "--nocapture", "--test-threads", "1"]
+        else:
+            tdir = os.path.join(crate_dir, "tests")
+            os.makedirs(tdir, exist_ok=True)
+            name = "vx_witness_" + w["test"]
+            shutil.copy(os.path.join(ROOT, "replay", w["test"] + ".rs"), os.path.join(tdir, name + ".rs"))
+            cmd = ["cargo", "test", "--offline", "--test", name] + w.get("cargo_args", []) + ["--", "--nocapture", "--test-threads", "1"]
         try:
             p = subprocess.run(cmd, cwd=crate_dir, env=env, capture_output=True, text=True, timeout=w.get("timeout_s", 1800))
             out = p.stderr[-3000:] + "\n" + p.stdout
